@@ -331,12 +331,15 @@ def overflow_variants(f, v, rng, path=()):
 
 # =========================================================================================
 # 3. framing perturbations of an encoding
-def perturb(bs, marks, rng, full):
+def perturb(bs, marks, rng, full, light=False):
     """-> list of (kind, site, bytes).  site = labelled tag (extension type) around the field, or None"""
     out = []
     n = len(bs)
     fields = marks.fields
-    if n <= 160 or full:
+    if light:        # very large encodings (2^16 / 2^24 boundaries): a handful of perturbations only
+        fields = fields[:2] + fields[-1:] if len(fields) > 3 else fields
+        ks = sorted(set([0, 1, n // 2, n - 1]))
+    elif n <= 160 or full:
         ks = range(n) if n <= 1200 else sorted(set(rng.randrange(n) for _ in range(600)))
     else:
         near = set()
@@ -445,11 +448,11 @@ class Run(object):
         self.enc_meta, self.dec_meta, self.noenc_meta = [], [], []
 
     def viol(self, key, what, rep):
-        self.found = True
-        self.ctx.violation(key, what, rep)
+        if self.ctx.violation(key, what, rep):      # False: a registered known finding
+            self.found = True
 
     # ---- one well-formed value through everything
-    def value_case(self, cls, v, rng, n_coq_dec, full=False, coq=True):
+    def value_case(self, cls, v, rng, n_coq_dec, full=False, coq=True, light=False):
         ctx = self.ctx
         marks = F.Marks()
         try:
@@ -482,47 +485,58 @@ class Run(object):
             self.enc_lits.append('(%s, %s, %s)' % (cls.coq, F.coq_val(v), blit(bs)))
             self.enc_meta.append(rep)
         # -- strictness on every perturbation
-        perts = perturb(bs, marks, rng, full)
+        perts = perturb(bs, marks, rng, full, light)
         picked = set(rng.sample(range(len(perts)), min(len(perts), n_coq_dec))) if coq else ()
         for pi, (kind, site, pb) in enumerate(perts):
-            m = mirror_parse(cls, pb)
-            if cls.hdr is not None and m is not None and m[1] > 0:
-                continue     # not a single whole handshake message: parse() is only ever given exactly one
-            r = impl_parse(cls, pb)
-            ctx.count('impl-strictness', 1, [(cls.name, kind, m is None, site)])
-            prep = dict(rep, perturbation=kind, input=hexs(pb), mirror='reject' if m is None else 'accept',
-                        impl=repr(r)[:600])
-            sk = site_key(cls, site, kind)
-            if r[0] == 'crash':
-                self.viol('crash:%s:%s' % (sk, r[1]), '%s: %s on a malformed input instead of a decode error (%s)' % (cls.name, r[1], kind), prep)
-            elif r[0] == 'ok' and m is None:
-                self.viol('lax:' + sk,
-                          '%s accepts an input the framing forbids (%s): %s' % (cls.name, kind, hexs(pb)[:120]), prep)
-            elif r[0] == 'reject' and m is not None:
-                # the format accepts: is it the class's own serialisation of that value?
-                try:
-                    again = bytes(cls.build(m[0]).write())
-                except Exception:  # noqa
-                    again = None
-                if again is not None and again == pb[:len(pb) - m[1]]:
-                    self.viol('roundtrip-reject:' + sk, '%s rejects its own serialisation' % cls.name, prep)
-                elif not self.found:
-                    self.tie_broken = 'format term %s accepts what %s.parse rejects (%s): %s' % (cls.coq, cls.name, kind, hexs(pb)[:160])
-            elif r[0] == 'ok':
-                cm = cls.canon(m[0])
-                if cm != m[0]:
-                    if r[1] != cm or r[3] != F.enc(cls.fmt, cm):
-                        self.viol('misparse:' + sk, '%s: documented normalisation not honoured (%s)' % (cls.name, kind), prep)
-                elif r[1] != m[0] or r[2] != len(pb) - m[1]:
-                    self.viol('misparse:' + sk, '%s accepts a perturbed input with a different value/extent than the framing says (%s)' % (cls.name, kind), prep)
-                elif isinstance(r[3], str):
-                    self.viol('write-raises:' + sk, '%s: parse() accepts an input (%s) whose value write() cannot serialise: %s' % (cls.name, kind, r[3]), prep)
-                elif r[3] != pb[:r[2]]:
-                    self.viol('reserialise:' + sk, '%s: write(parse(b)) != b for an accepted b (%s): %s' % (cls.name, kind, str(r[3])[:80]), prep)
-            if pi in picked and len(pb) <= 6000:
+            m = self.compare(cls, kind, site, pb, rep)
+            if m is not False and pi in picked and len(pb) <= 6000:
                 exp = 'None' if m is None else '(Some (%s, %d))' % (F.coq_val(m[0]), m[1])
                 self.dec_lits.append('(%s, %s, %s, %s)' % (cls.coq, vlib.boollit(cls.whole), blit(pb), exp))
-                self.dec_meta.append(prep)
+                self.dec_meta.append(dict(rep, perturbation=kind, input=hexs(pb)))
+
+    def compare(self, cls, kind, site, pb, rep):
+        """one (possibly malformed) input: the real parser must accept exactly when the framing does,
+        with the same value and extent, and re-serialise identically.  Returns the framing's verdict
+        (False: input not comparable)."""
+        ctx = self.ctx
+        m = mirror_parse(cls, pb)
+        if cls.hdr is not None and m is not None and m[1] > 0:
+            return False     # not a single whole handshake message: parse() is only ever given exactly one
+        r = impl_parse(cls, pb)
+        ctx.count('impl-strictness', 1, [(cls.name, kind, m is None, site)])
+        prep = dict(rep, perturbation=kind, input=hexs(pb), mirror='reject' if m is None else 'accept',
+                    impl=repr(r)[:600])
+        sk = site_key(cls, site, kind)
+        if r[0] == 'crash':
+            self.viol('crash:%s:%s' % (sk, r[1]), '%s: %s on a malformed input instead of a decode error (%s)' % (cls.name, r[1], kind), prep)
+        elif r[0] == 'ok' and m is None:
+            self.viol('lax:' + sk,
+                      '%s accepts an input the framing forbids (%s): %s' % (cls.name, kind, hexs(pb)[:120]), prep)
+        elif r[0] == 'reject' and m is not None:
+            if cls.ders is not None and any(d not in K.der_certs() for d in cls.ders(m[0])):
+                return False     # the perturbation damaged certificate content: X.509 DER is outside the model
+            # the format accepts: is it the class's own serialisation of that value?
+            try:
+                again = bytes(cls.build(m[0]).write())
+            except Exception:  # noqa
+                again = None
+            if again is not None and again == pb[:len(pb) - m[1]]:
+                self.viol('roundtrip-reject:' + sk, '%s rejects its own serialisation' % cls.name, prep)
+            elif not self.found:
+                self.tie_broken = 'format term %s accepts what %s.parse rejects (%s): %s' % (cls.coq, cls.name, kind, hexs(pb)[:160])
+        elif r[0] == 'ok':
+            cm = cls.canon(m[0])
+            if cm != m[0]:
+                if r[1] != cm or r[3] != F.enc(cls.fmt, cm):
+                    self.viol('misparse:' + sk, '%s: documented normalisation not honoured (%s)' % (cls.name, kind), prep)
+            elif r[1] != m[0] or r[2] != len(pb) - m[1]:
+                self.viol('misparse:' + sk, '%s accepts a perturbed input with a different value/extent than the framing says (%s)' % (cls.name, kind), prep)
+            elif isinstance(r[3], str):
+                self.viol('write-raises:' + sk, '%s: parse() accepts an input (%s) whose value write() cannot serialise: %s' % (cls.name, kind, r[3]), prep)
+            elif r[3] != pb[:r[2]]:
+                self.viol('reserialise:' + sk,
+                          '%s: write(parse(b)) != b for an accepted b (%s): %s' % (cls.name, kind, str(r[3])[:80]), prep)
+        return m
 
     # ---- a value with one field that does not fit
     def overflow_case(self, cls, v, path, coq=True):
@@ -697,9 +711,24 @@ def run(ctx):
                                               vlib.listlit(trace, lambda t: vlib.listlit(t, zlit)), code, idx))
     ctx.log('primitives: %d writer scripts, %d parser scripts' % (len(wl), len(pl)))
 
+    # ---- corpus: minimised past disagreements, always first
+    import glob
+    by_name = {c.name: c for c in table}
+    for p in sorted(glob.glob(os.path.join(vlib.ROOT, 'corpus', 'C15', '*.json'))):
+        with open(p) as f:
+            e = json.load(f)
+        cls = by_name[e['class']]
+        pb = bytes.fromhex(e['input'])
+        site = (cls.ext_ctx, int.from_bytes(pb[:2], 'big')) if cls.name.startswith('Extension(') else None
+        m = run_.compare(cls, 'corpus', site, pb, {'class': cls.name, 'coq_fmt': cls.coq, 'corpus': os.path.basename(p)})
+        if m is not False:
+            run_.dec_lits.append('(%s, %s, %s, %s)' % (cls.coq, vlib.boollit(cls.whole), blit(pb),
+                                 'None' if m is None else '(Some (%s, %d))' % (F.coq_val(m[0]), m[1])))
+            run_.dec_meta.append({'corpus': os.path.basename(p)})
+
     # ---- 2. classes
-    per_class = 5 if quick else 40
-    n_coq = 8 if quick else 60
+    per_class = 5 if quick else 30
+    n_coq = 6 if quick else 12
     for cls in table:
         vals = []
         if cls.name.startswith('Extension('):
@@ -709,14 +738,14 @@ def run(ctx):
         for i, v in enumerate(vals):
             run_.value_case(cls, v, rng, n_coq, full=not quick and i % 4 == 0)
             if i % 2 == 0:
-                for v2, path in list(overflow_variants(cls.fmt, v, rng))[:6 if quick else 20]:
+                for v2, path in list(overflow_variants(cls.fmt, v, rng))[:4 if quick else 20]:
                     run_.overflow_case(cls, cls.fix(v2), path)
     ctx.log('classes: %d class/context entries, %d values, %d perturbed inputs (impl + mirror)' % (
         len(table), ctx.cov['streams'].get('impl-roundtrip', {}).get('evaluations', 0),
         ctx.cov['streams'].get('impl-strictness', {}).get('evaluations', 0)))
     for cls, v, fits in big_boundary_cases(table, rng, not quick):
         if fits:
-            run_.value_case(cls, v, rng, 0, coq=False)
+            run_.value_case(cls, v, rng, 0, coq=False, light=True)
         else:
             run_.overflow_case(cls, v, ('boundary',), coq=False)
     legacy_oracle(run_, rng, 60 if quick else 600)
@@ -731,10 +760,13 @@ def run(ctx):
                 ('C15e', 'fmt * val * list Z', 'chk_enc', run_.enc_lits, 'encode', run_.enc_meta),
                 ('C15n', 'fmt * val', 'chk_noenc', run_.noenc_lits, 'overflow', run_.noenc_meta),
                 ('C15d', 'fmt * bool * list Z * option (val * Z)', 'chk_dec', run_.dec_lits, 'decode', run_.dec_meta)]
-        for tag, ty, fn, lits, what, meta in jobs:
-            if not lits:
-                continue
-            bad, errs = vlib.coq_bad_indices(tag, imports, ty, fn, lits, shard=max(20, (len(lits) + 15) // 16))
+        from concurrent.futures import ThreadPoolExecutor
+        jobs = [j for j in jobs if j[3]]
+        with ThreadPoolExecutor(len(jobs)) as ex:       # the five case sets are evaluated concurrently
+            futs = [ex.submit(vlib.coq_bad_indices, tag, imports, ty, fn, lits,
+                              max(20, (len(lits) + 11) // 12)) for tag, ty, fn, lits, what, meta in jobs]
+            results = [f.result() for f in futs]
+        for (tag, ty, fn, lits, what, meta), (bad, errs) in zip(jobs, results):
             ctx.count('model-vs-impl:%s(vm_compute)' % what, len(lits), [('n', len(lits) - len(bad))])
             for e in errs:
                 run_.tie_broken = run_.tie_broken or ('%s case evaluation failed: %s' % (what, e[-400:]))
